@@ -47,27 +47,53 @@ def script_case(cmds, **kw):
 # ---------------------------------------------------------------- traces of the implementation
 
 class Trace:
-    """states[i] = (text, pos) before command i; states[len(cmds)] = (returned line, None)"""
+    """steps[i] = (cmd, (text, pos) before, after) with after = ("state", text, pos) | ("line", text) |
+    ("end", outcome) | None (nothing observed: the script was cut short). Reads are consumed in order: a
+    read's observations are the states before its commands, its outcome is what the last of them produced."""
 
     def __init__(self, case, impl_reads):
         self.case = case
         self.cmds = case.meta["cmds"]
         self.ok = False
         self.why = ""
-        if len(impl_reads) != case.reads or case.reads != 1:
-            self.why = "reads"
+        self.reads = [parse_read(r) for r in impl_reads]
+        self.steps = []
+        k = 0
+        for (o, obs, w) in self.reads:
+            for j, ob in enumerate(obs):
+                if k >= len(self.cmds):
+                    self.why = "more observations than commands"
+                    return
+                if j + 1 < len(obs):
+                    after = ("state", obs[j + 1][0], obs[j + 1][1])
+                elif o.startswith("line:"):
+                    after = ("line", dec(o[5:]))
+                else:
+                    after = ("end", o)
+                self.steps.append((self.cmds[k], (ob[0], ob[1]), after, ob))
+                k += 1
+        # a script is aligned when every command was observed and each read ended on a command that can end it
+        if k != len(self.cmds):
+            self.why = "misaligned %d/%d" % (k, len(self.cmds))
             return
-        o, obs, w = parse_read(impl_reads[0])
-        self.outcome, self.obs, self.written = o, obs, w
-        if len(obs) != len(self.cmds):
-            self.why = "misaligned %d/%d" % (len(obs), len(self.cmds))
-            return
-        self.states = [(ob[0], ob[1]) for ob in obs]
-        if o.startswith("line:"):
-            self.states.append((dec(o[5:]), None))
-        else:
-            self.states.append((None, None))
+        for (cmd, before, after, ob) in self.steps:
+            if after[0] == "end" and after[1] == "hangup":
+                continue            # the driver hung up after the last key: nothing was observed after it
+            if after[0] in ("line", "end") and cmd.tag not in ("enter", "eof", "intr", "ender"):
+                self.why = "read ended on %r" % cmd
+                return
+        self.written = [w for (_, _, w) in self.reads]
         self.ok = True
+
+    @property
+    def states(self):
+        out = []
+        for (cmd, before, after, ob) in self.steps:
+            out.append(before)
+        if self.steps:
+            a = self.steps[-1][2]
+            out.append((a[1], None) if a[0] == "line" else (None, None))
+        return out
 
 
 class Segs:
@@ -94,14 +120,11 @@ def collect_segs(segs, traces):
     for t in traces:
         if not t.ok:
             continue
-        for text, pos in t.states:
-            if text is None:
-                continue
+        for (cmd, (text, pos), after, ob) in t.steps:
             strs.append(text)
-            if pos is not None:
-                pre, suf = split_at(text, pos)
-                strs.append(pre)
-                strs.append(suf)
+            pre, suf = split_at(text, pos)
+            strs.append(pre)
+            strs.append(suf)
     segs.need(strs)
 
 
@@ -254,7 +277,7 @@ def gen_c01_oracle(rng, mode, n):
             pre, k = emacs_count(rng)
             if r < 0.45:
                 c = rng.choice(INS_CHARS)
-                if pre and c.isdigit():
+                if pre and (c.isdigit() or c == '-'):
                     c = "a"
                 cmds.append(Cmd(pre + [c], "ins", c=ord(c), n=k))
             elif r < 0.60:
@@ -334,33 +357,26 @@ def eval_c01(res, traces, segs, ws, stream):
     for t in traces:
         if not t.ok:
             continue
-        for i, cmd in enumerate(t.cmds):
-            (text, pos), (text2, pos2) = t.states[i], t.states[i + 1]
+        for i, (cmd, (text, pos), after, ob) in enumerate(t.steps):
             if cmd.tag == "enter":
                 # the line returned is the text as it stood (no validator)
-                if text2 is not None and text2 != text:
-                    res.oracle_failures.append({"stream": stream, "case": t.case.model_line(p_tty.chunks_of(t.case.keys)),
-                                                "keys": t.case.keys, "why": "returned line differs from the text at Enter",
-                                                "impl": "%s -> %s" % (enc(text), enc(text2))})
+                if after[0] != "line" or after[1] != text:
+                    fail_case(res, stream, t, "Enter on (%s) did not return that text: %s" % (enc(text), after))
                 continue
-            if text2 is None:
-                break
+            if after[0] != "state":
+                continue
+            text2, pos2 = after[1], after[2]
             tags[cmd.tag] = tags.get(cmd.tag, 0) + 1
             if cmd.tag in MOTION_TAGS and text2 != text:
-                res.oracle_failures.append({"stream": stream, "case": t.case.model_line(p_tty.chunks_of(t.case.keys)),
-                                            "keys": t.case.keys, "why": "motion changed the text: command %d %r" % (i, cmd),
-                                            "impl": "%s -> %s" % (enc(text), enc(text2))})
+                fail_case(res, stream, t, "motion changed the text: command %d %r: %s -> %s" % (i, cmd, enc(text), enc(text2)))
                 continue
             exp = spec_apply(cmd.tag, cmd.arg, text, pos, segs, ws)
             if exp is None:
                 continue
             et, ep = exp
-            if et != text2 or (pos2 is not None and ep != pos2):
-                res.oracle_failures.append({
-                    "stream": stream, "case": t.case.model_line(p_tty.chunks_of(t.case.keys)), "keys": t.case.keys,
-                    "why": "documented meaning: command %d %r on (%s,%d) should give (%s,%d), implementation gave (%s,%s)" % (
-                        i, cmd, enc(text), pos, enc(et), ep, enc(text2), pos2),
-                    "impl": " ## ".join(p_tty.canon_impl({"obs": [], "out": b""})) or ""})
+            if et != text2 or ep != pos2:
+                fail_case(res, stream, t, "documented meaning: command %d %r on (%s,%d) should give (%s,%d), implementation gave (%s,%s)" % (
+                    i, cmd, enc(text), pos, enc(et), ep, enc(text2), pos2))
             res.nontrivial.add((cmd.tag, enc(text), pos))
     return tags
 
@@ -378,7 +394,12 @@ def run_spec_stream(res, exe, driver, cases, tmp, stream, seed, typeahead=0.25):
 
 def alignment(traces):
     ok = sum(1 for t in traces if t.ok)
-    return {"aligned": ok, "not_aligned": len(traces) - ok}
+    why = {}
+    for t in traces:
+        if not t.ok:
+            k = t.why.split(" ")[0] + (" " + " ".join(t.why.split(" ")[1:3]) if t.why.startswith("read ended") else "")
+            why[k] = why.get(k, 0) + 1
+    return {"aligned": ok, "not_aligned": len(traces) - ok, "why_not": why}
 
 
 def check_cc():
@@ -405,5 +426,141 @@ def c01_corr(res, exe, driver, tier, seed, tmp):
                 "every byte written, against the extracted model. keys-spec: scripts of commands with an independent documented meaning "
                 "(self-insert, char/word/line motions, char deletes, line and word kills, vi h l 0 $ w b W B x X D i a A I Esc) evaluated "
                 "on the implementation's own observed states with the crate's own segmentation and Unicode tables.")
+    for c, impl, model, raw in out[:3]:
+        res.samples.append({"keys": c.keys, "impl": " ## ".join(impl)[:400]})
+
+
+# ---------------------------------------------------------------- C13: Enter and the validator
+
+def verdict_script(text):
+    """the scripted validator of the harness child (harness/src/ttychild.rs), restated"""
+    s = "".join(chr(c) for c in text)
+    if "##" in s:
+        return ("error", None)
+    if "!!" in s:
+        return ("invalid", " <-- bad")
+    if "??" in s:
+        return ("invalid", None)
+    if s.endswith("\\"):
+        return ("incomplete", None)
+    if "ok" in s:
+        return ("valid", " fine")
+    return ("valid", None)
+
+
+def verdict_brackets(text):
+    """rustyline::validate::MatchingBracketValidator as documented: balanced -> Valid, open left -> Incomplete,
+    mismatch -> Invalid with a message"""
+    stack = []
+    pairs = {")": "(", "]": "[", "}": "{"}
+    for c in text:
+        ch = chr(c)
+        if ch in "([{":
+            stack.append(ch)
+        elif ch in ")]}":
+            if not stack:
+                return ("invalid", "Mismatched brackets: '%s' is unpaired" % ch)
+            top = stack.pop()
+            if top != pairs[ch]:
+                return ("invalid", "Mismatched brackets: '%s' is not properly closed" % top)
+    return ("valid", None) if not stack else ("incomplete", None)
+
+
+C13_FRAG = ["a", "b", " ", "!!", "??", "##", "\\", "ok", "(", ")", "[", "]", "{", "}", "é", "日", "x", "!", "?", "#"]
+
+
+def gen_c13(rng, mode):
+    cmds = []
+    nreads = rng.choice([1, 1, 2, 3])
+    for r in range(nreads):
+        steps = rng.randint(2, 12)
+        for _ in range(steps):
+            x = rng.random()
+            if x < 0.55:
+                for ch in rng.choice(C13_FRAG):
+                    cmds.append(Cmd([ch], "ins", c=ord(ch), n=1))
+            elif x < 0.78:
+                cmds.append(Cmd([rng.choice(["Enter", "C-j", "C-m", "Enter"])], "enter"))
+            elif x < 0.93:
+                key, tag = rng.choice([("Left", "left"), ("Home", "home"), ("End", "end"), ("Right", "right"),
+                                       ("Backspace", "bs")])
+                cmds.append(Cmd([key], tag))
+            else:
+                cmds.append(Cmd(["C-v", "C-j"], "ins", c=LF, n=1) if mode == "emacs" else Cmd(["Left"], "left"))
+        cmds.append(Cmd(["Enter"], "enter"))
+    cmds.append(Cmd(["F12"], "noop"))      # an unbound key: makes the effect of the last Enter observable
+    return cmds
+
+
+def c13_oracle_cases(tier, seed):
+    rng = random.Random(seed * 1013 + 3)
+    n = 3000 if tier == "thorough" else 240
+    cases = []
+    for _ in range(n):
+        mode = rng.choice(["emacs", "emacs", "vi"])
+        cmds = gen_c13(rng, mode)
+        vk = rng.choice(["script", "script", "brackets"])
+        cases.append(script_case(cmds, mode=mode, validator=vk, reads=40, timeout=0 if mode == "vi" else rng.choice(["none", 0]),
+                                 prompt=rng.choice(["> ", ""]), cols=rng.choice([80, 80, 20]),
+                                 hints=["ok then"] if rng.random() < 0.15 else None))
+    return cases
+
+
+def contains_seq(hay, needle):
+    n = len(needle)
+    return any(hay[i:i + n] == needle for i in range(len(hay) - n + 1)) if n else True
+
+
+def eval_c13(res, traces, stream):
+    kinds = {}
+    for t in traces:
+        if not t.ok:
+            continue
+        vfun = verdict_script if t.case.validator == "script" else verdict_brackets
+        read_idx = 0
+        for i, (cmd, (text, pos), after, ob) in enumerate(t.steps):
+            if after[0] in ("line", "end"):
+                this_read = read_idx
+                read_idx += 1
+            else:
+                this_read = read_idx
+            if cmd.tag != "enter" or after == ("end", "hangup"):
+                continue
+            kind, msg = vfun(text)
+            kinds[kind + ("+msg" if msg else "")] = kinds.get(kind + ("+msg" if msg else ""), 0) + 1
+            res.nontrivial.add((kind, enc(text), pos))
+            if kind == "valid":
+                if after != ("line", text):
+                    fail_case(res, stream, t, "verdict Valid on (%s) but Enter gave %s" % (enc(text), after))
+            elif kind == "error":
+                if after != ("end", "verr"):
+                    fail_case(res, stream, t, "validator error on (%s) but Enter gave %s" % (enc(text), after))
+            elif kind == "incomplete" or msg is None:
+                pre, suf = split_at(text, pos)
+                if after != ("state", pre + [LF] + suf, pos + 1):
+                    fail_case(res, stream, t, "verdict %s on (%s,%d): expected a line break at the cursor and editing to go on, got %s" % (
+                        kind, enc(text), pos, after))
+            else:
+                if after != ("state", text, pos):
+                    fail_case(res, stream, t, "verdict Invalid(msg) on (%s,%d): text/cursor should stay, got %s" % (enc(text), pos, after))
+                elif not contains_seq(t.written[this_read], [ord(c) for c in msg]):
+                    fail_case(res, stream, t, "verdict Invalid(%r) on (%s): the message was not written to the terminal" % (msg, enc(text)))
+    return kinds
+
+
+def c13_corr(res, exe, driver, tier, seed, tmp):
+    cases = p_tty.c13_cases(tier, seed)
+    run_tty_cases(res, exe, driver, cases, tmp, "validate", rng=random.Random(seed), typeahead=0.3)
+    ocases = c13_oracle_cases(tier, seed)
+    out, traces = run_spec_stream(res, exe, driver, ocases, tmp, "validate-spec", seed)
+    kinds = eval_c13(res, traces, "validate-spec")
+    res.distribution.update({"verdicts_at_enter": kinds, "spec_alignment": alignment(traces),
+                             "validate_scripts": len(cases), "spec_scripts": len(ocases)})
+    res.rule = ("validate: random emacs/vi scripts with a scripted validator (## error, !! invalid+message, ?? invalid, trailing "
+                "backslash incomplete, ok valid+message) or the shipped MatchingBracketValidator, Enter / C-j / C-m anywhere in "
+                "the line, 1-2 reads, hints, narrow windows; compared with the extracted model (states before every key, results, "
+                "bytes). validate-spec: at every Enter the verdict is recomputed here from the observed text and the decision "
+                "table of the property is checked on what the implementation did (returned string = that text; LF at the cursor; "
+                "text and cursor kept and the message written; error returned).")
     for c, impl, model, raw in out[:3]:
         res.samples.append({"keys": c.keys, "impl": " ## ".join(impl)[:400]})
